@@ -76,15 +76,23 @@ func c07Quote(q int, s string) (string, int) {
 		return "!!str &anc \"" + s + "\"", 12
 	case 8:
 		return "&anc !!str " + s, 11
+	case 9: // several blanks after a node property
+		return "&anc   " + s, 7
+	case 10:
+		return "!!str  &anc   \"" + s + "\"", 15
+	case 11: // the non-specific tag
+		return "! " + s, 2
+	case 12:
+		return "! \"" + s + "\"", 3
 	}
 	return s, 0
 }
 
-var c07QuoteNames = []string{"plain", "single", "double", "anchor+plain", "tag+plain", "anchor+tag+double", "tag+anchor+plain", "tag+anchor+double", "anchor+tag+plain"}
+var c07QuoteNames = []string{"plain", "single", "double", "anchor+plain", "tag+plain", "anchor+tag+double", "tag+anchor+plain", "tag+anchor+double", "anchor+tag+plain", "anchor+blanks+plain", "tag+blanks+anchor+blanks+double", "non-specific-tag+plain", "non-specific-tag+double"}
 
 // c07Plain: the text is written as a plain scalar (after an anchor / tag or not).
 func c07Plain(quote int) bool {
-	return quote == 0 || quote == 3 || quote == 4 || quote == 6 || quote == 8
+	return quote == 0 || quote == 3 || quote == 4 || quote == 6 || quote == 8 || quote == 9 || quote == 11
 }
 
 // c07StepCase renders a workflow whose only step carries the scalar.
@@ -190,7 +198,7 @@ func c07Run(r *vReport, cs *c07Case, class string) {
 func TestVerifC07(t *testing.T) {
 	r := vNewReport("C07")
 	defer r.Write(t)
-	r.Extra["rule"] = "18 expression constructs (lexer, parser, semantic first/inner token, untrusted input, availability, bare if:) x extra indentation 0-4 x lines above 0-3 x block/flow x plain/single/double/after an anchor/after a tag/after both in either order x prefix 0-5 x preceding placeholders 0-2 x spaces after ${{ 0-3; every non-exempt scalar position of the 4 seeds x plain/single/double x 0-3 spaces with an undefined variable; 26 per-rule templates (ids, env names, permission scopes, runner labels, needs, events, activity types, cron, matrix duplicates / exclude, action inputs and refs, timeout, credentials, if-cond, workflow call, dispatch default, input type, unexpected / duplicate keys) x quoting x lines above with the marker's position as expectation; key constructs (unexpected, duplicate) and value constructs (enum, shell name, glob character at index 0-4) x indentation x lines above x style x quoting; plus line/column range of every non-YAML-level diagnostic over positions x fragments of the workflow seeds. class = construct x style x quoting; all non-trivial"
+	r.Extra["rule"] = "18 expression constructs (lexer, parser, semantic first/inner token, untrusted input, availability, bare if:) x extra indentation 0-4 x lines above 0-3 x block/flow x plain/single/double/after an anchor/after a tag/after both in either order/with several blanks between them x prefix 0-5 x preceding placeholders 0-2 x spaces after ${{ 0-3; every non-exempt scalar position of the 4 seeds x plain/single/double x 0-3 spaces with an undefined variable; 26 per-rule templates (ids, env names, permission scopes, runner labels, needs, events, activity types, cron, matrix duplicates / exclude, action inputs and refs, timeout, credentials, if-cond, workflow call, dispatch default, input type, unexpected / duplicate keys) x quoting x lines above with the marker's position as expectation; key constructs (unexpected, duplicate) and value constructs (enum, shell name, glob character at index 0-4) x indentation x lines above x style x quoting; plus line/column range of every non-YAML-level diagnostic over positions x fragments of the workflow seeds. class = construct x style x quoting; all non-trivial"
 	r.Extra["assumptions"] = []string{"one-line ASCII scalars without escape sequences only (as the statement says)"}
 	if raw := vReplayInput(); raw != nil {
 		var cs c07Case
@@ -218,7 +226,7 @@ func TestVerifC07(t *testing.T) {
 		for extra := 0; extra <= bExtra; extra++ {
 			for above := 0; above <= bAbove; above++ {
 				for flow := 0; flow <= 1; flow++ {
-					for quote := 0; quote <= 8; quote++ {
+					for quote := 0; quote <= 12; quote++ {
 						for prefix := 0; prefix <= bPrefix; prefix++ {
 							for preceding := 0; preceding <= bPreceding; preceding++ {
 								for spaces := 0; spaces <= bSpaces; spaces++ {
@@ -265,11 +273,11 @@ func TestVerifC07(t *testing.T) {
 				kc{"duplicate-key/flow", top + "on: push\njobs:\n  a:\n    runs-on: ubuntu-latest\n    steps:\n" + ind + "- {run: echo, name: a, name: b}\n", `^key "name" is duplicate`, above + 6, len(ind) + len("- {run: echo, name: a, ") + 1},
 				kc{"unexpected-key/job", top + "on: push\njobs:\n" + jind + "a:\n" + jind + "  runs-on: ubuntu-latest\n" + jind + "  zzforeign: 1\n" + jind + "  steps:\n" + jind + "    - run: echo\n", `^unexpected key "zzforeign"`, above + 5, len(jind) + 3},
 			)
-			for quote := 0; quote <= 8; quote++ {
+			for quote := 0; quote <= 12; quote++ {
 				q := func(s string) (string, int) { return c07Quote(quote, s) }
 				// a diagnostic about a whole value points at its text (the opening quote of a quoted
 				// one), which stands after an anchor / tag
-				ao := []int{0, 0, 0, 5, 6, 11, 11, 11, 11}[quote]
+				ao := []int{0, 0, 0, 5, 6, 11, 11, 11, 11, 7, 14, 2, 2}[quote]
 				v, qo := q("nosuchshell")
 				cases = append(cases, kc{"shell-name/" + c07QuoteNames[quote], top + "on: push\njobs:\n  a:\n    runs-on: ubuntu-latest\n    steps:\n" + ind + "- run: echo\n" + ind + "  shell: " + v + "\n", `^shell name "nosuchshell" is invalid`, above + 7, len(ind) + 10 + ao})
 				_ = qo
